@@ -4,6 +4,8 @@
 -/
 import Driver.Sim
 import NakenVerif.Sim.Tms1000Impl
+import NakenVerif.Sim.I8008Impl
+import NakenVerif.Sim.Lc3Impl
 namespace Driver.SimX
 open Driver.Sim NakenVerif.Sim
 
@@ -63,6 +65,32 @@ def tms1000 (kv : KV) (cells : List (BitVec 32 × BitVec 8)) : String :=
       ("o", s.oPins.toNat), ("k", s.kPins.toNat), ("cyc", s.cycleCount.toNat), ("stop", b2n s.stopRunning),
       ("show", b2n s.showOn)] ++ "," ++ arrOut "ram" 2 s.ram
 
+def finish2 {σ : Type} (r : Chk (StepOut σ × Mem)) (given : List (BitVec 32)) (render : σ → String) : String :=
+  match r with
+  | .fault w => "fault " ++ w
+  | .ok (o, m) => "ret=" ++ toString o.ret ++ " " ++ render o.state ++ " mem=" ++ renderMem m given (o.writes.map (·.1))
+
+def i8008 (kv : KV) (cells : List (BitVec 32 × BitVec 8)) : String :=
+  let s : I8008.State := {
+    pc := .ofNat 16 (getU kv "pc"), sp := .ofNat 16 (getU kv "sp"),
+    fp := bit kv "fp", fs := bit kv "fs", fc := bit kv "fc", fz := bit kv "fz",
+    reg := Vector.ofFn fun i : Fin 8 => .ofNat 8 (getEl kv "reg" i.val 2),
+    stack := Vector.ofFn fun i : Fin 8 => .ofNat 16 (getEl kv "stack" i.val 4),
+    stopRunning := bit kv "stop", showOn := bit kv "show" }
+  finish2 (I8008.step (memOf cells) s) (cells.map (·.1)) fun s =>
+    kvOut [("pc", s.pc.toNat), ("sp", s.sp.toNat), ("fp", b2n s.fp), ("fs", b2n s.fs), ("fc", b2n s.fc), ("fz", b2n s.fz),
+      ("cyc", getU kv "cyc"), ("stop", b2n s.stopRunning), ("show", b2n s.showOn)] ++ "," ++
+      arrOut "reg" 2 s.reg ++ "," ++ arrOut "stack" 4 s.stack
+
+def lc3 (kv : KV) (cells : List (BitVec 32 × BitVec 8)) : String :=
+  let s : Lc3.State := {
+    pc := .ofNat 16 (getU kv "pc"), psr := .ofNat 16 (getU kv "psr"),
+    reg := Vector.ofFn fun i : Fin 8 => .ofNat 16 (getEl kv "reg" i.val 4),
+    stopRunning := bit kv "stop", showOn := bit kv "show" }
+  finish2 (Lc3.step (memOf cells) s) (cells.map (·.1)) fun s =>
+    kvOut [("pc", s.pc.toNat), ("psr", s.psr.toNat), ("cyc", getU kv "cyc"), ("stop", b2n s.stopRunning),
+      ("show", b2n s.showOn)] ++ "," ++ arrOut "reg" 4 s.reg
+
 def handle (args : List String) : String :=
   match args with
   | [cpu, st, cells] =>
@@ -70,6 +98,8 @@ def handle (args : List String) : String :=
     | some cells =>
       let kv := parseKV st
       if cpu == "tms1000" then tms1000 kv cells
+      else if cpu == "8008" then i8008 kv cells
+      else if cpu == "lc3" then lc3 kv cells
       else "not-modelled"
     | none => "bad-op"
   | _ => "bad-op"
